@@ -29,7 +29,9 @@ RULE = ('a case is one FITS header (projection x reference point x pixel scale(s
         'pixel positions; per position the six WCSHelper transforms are called (pix2sky, sky2pix, *_vec, *_ellipse) and '
         'every call, including the nested ones the subject makes itself, is one contract evaluation; strata: five '
         'projections, CRVAL dec 0/+-30/+-60/+-85, RA wrap, scales 1..60 arcsec, non-square pixels, CD form, CRPIX off '
-        'the image, image corners/edges, PAs on the cardinal values and +-180; non-trivial = finite input with non-zero '
+        'the image, image corners/edges, PAs on the cardinal values and +-180; whole-number positions spelled as Python '
+        'ints, int lists, int32/int64 ndarrays, numpy integer scalars and mixed int/float (must equal the float spelling, '
+        'for every method, also with integer lengths/angles); non-trivial = finite input with non-zero '
         'length inside the domain; distinct = unique argument rows within a case (cases with equal hash counted once)')
 ASSUMPTIONS = ['oracle: aegmon/refs/wcs_zenithal.py (geometric formulation of FITS paper II zenithal projections, no astropy), '
                'cross-checked at start-up against astropy.wcs to 1e-10 deg; aegmon/refs/sphere.py for lengths and angles',
@@ -41,7 +43,8 @@ MIN_REACH = {'wcs_helpers:WCSHelper.pix2sky': 1, 'wcs_helpers:WCSHelper.sky2pix'
              'wcs_helpers:WCSHelper.sky2pix_ellipse': 1, 'wcs_helpers:WCSHelper.pix2sky_ellipse': 1}
 MIN_COUNTERS = {'contract_pix2sky': 1000, 'contract_sky2pix': 1000, 'contract_sky2pix_vec': 500,
                 'contract_pix2sky_vec': 500, 'contract_sky2pix_ellipse': 500, 'contract_pix2sky_ellipse': 500,
-                'east_of_north_checked': 50, 'psf_roundtrip_checked': 10, 'nonsquare_ellipse_roundtrips': 100}
+                'east_of_north_checked': 50, 'psf_roundtrip_checked': 10, 'nonsquare_ellipse_roundtrips': 100,
+                'int_spellings_checked': 1000, 'int_sky_spellings_checked': 100}
 
 TOL_PIX = 1e-6       # pixels, statement
 TOL_SKY = 1e-9       # degrees, statement
@@ -594,6 +597,7 @@ def run(case):
                           'sky2pix_ellipse': None if e2 is None else [float(t) for t in e2],
                           'off_axis_deg': off, 'header': {'proj': case['proj'], 'crval': case['crval'],
                                                           'cdelt_arcsec': [c * 3600 for c in case['cdelt']]}}
+        _spellings(o, w, z, rng, rows, cols, case)
         # constructive east-of-north test: build the pixel vector with the oracle from a sky displacement
         for i in range(12):
             x, y = float(xs[i + 3]), float(ys[i + 3])
@@ -643,6 +647,83 @@ def run(case):
         return o.result()
     finally:
         set_obs(None)
+
+
+def _flat_result(res):
+    return [float(v) for v in np.ravel(np.asarray(res, dtype=float))]
+
+
+def _spellings(o, w, z, rng, rows, cols, case):
+    """The same whole-number position given as Python ints, int list, integer ndarray, numpy integer scalars or mixed
+    int/float must give the result obtained with floats, for every method.  (Every call is also judged by the contracts,
+    whose oracle always works in floats.)  Lengths/angles are given both as floats and as Python ints."""
+    def spell(i, j):
+        return [('int_tuple', (int(i), int(j))), ('int_list', [int(i), int(j)]),
+                ('int64_array', np.array([int(i), int(j)], dtype=np.int64)),
+                ('int32_array', np.array([int(i), int(j)], dtype=np.int32)),
+                ('numpy_int_scalars', (np.int64(i), np.int32(j))), ('mixed_int_float', (int(i), float(j))),
+                ('mixed_float_int', [float(i), int(j)]), ('float_array', np.array([float(i), float(j)]))]
+
+    def compare(method, name, args_desc, base, got):
+        o.count('int_spellings_checked')
+        o.n_eval += 1
+        b, g = _flat_result(base), _flat_result(got)
+        ok = len(b) == len(g) and all((abs(x - y) <= 1e-12 * max(1.0, abs(x))) or (x != x and y != y) for x, y in zip(b, g))
+        if ok:
+            return
+        o.violate('int_spelling_differs_from_float', {'method': method, 'spelling': name, 'args': args_desc,
+                                                     'with_floats': b, 'with_this_spelling': g, 'proj': case['proj'],
+                                                     'crval': case['crval'], 'cdelt': case['cdelt']})
+
+    def call(method, *args):
+        try:
+            return getattr(w, method)(*args)
+        except Exception as ex:
+            o.n_eval += 1
+            o.violate('raises', {'where': method, 'args': repr(args)[:300], 'exc': repr(ex)})
+            return None
+
+    scale = max(abs(case['cdelt'][0]), abs(case['cdelt'][1]))
+    smax = min(20.0, DOM_ELL_LEN * 0.98 / scale)
+    for _ in range(6):
+        i, j = int(rng.integers(1, rows + 1)), int(rng.integers(1, cols + 1))
+        r, th = float(rng.uniform(0.5, 19.5)), _angle(rng)
+        sx = float(rng.uniform(min(1.0, smax), smax))
+        sy, te = sx * float(rng.uniform(0.2, 1.0)), _angle(rng)
+        # whole-number lengths and angles as Python ints too (only when inside the ellipse domain: smax >= 2 px)
+        ri, thi = int(rng.integers(1, 20)), int(rng.integers(-179, 181))
+        base = {'pix2sky': call('pix2sky', (float(i), float(j))),
+                'pix2sky_vec': call('pix2sky_vec', (float(i), float(j)), r, th),
+                'pix2sky_ellipse': call('pix2sky_ellipse', (float(i), float(j)), sx, sy, te),
+                'pix2sky_vec_int_args': call('pix2sky_vec', (float(i), float(j)), float(ri), float(thi))}
+        if any(v is None for v in base.values()):
+            continue
+        for name, pix in spell(i, j):
+            for method, args, key in (('pix2sky', (), 'pix2sky'), ('pix2sky_vec', (r, th), 'pix2sky_vec'),
+                                      ('pix2sky_ellipse', (sx, sy, te), 'pix2sky_ellipse'),
+                                      ('pix2sky_vec', (ri, thi), 'pix2sky_vec_int_args')):
+                got = call(method, pix, *args)
+                if got is not None:
+                    compare(method, name, [i, j] + list(args), base[key], got)
+    # sky side: whole-degree positions exist only where the reference point itself is at whole degrees
+    ra0, dec0 = case['crval']
+    if float(ra0).is_integer() and float(dec0).is_integer():
+        a = float(rng.uniform(2.0, 5.0)) * scale
+        b, pa = a * 0.5, _angle(rng)
+        pai = int(rng.integers(-179, 181))
+        fpos = (float(ra0), float(dec0))
+        base = {'sky2pix': call('sky2pix', fpos), 'sky2pix_vec': call('sky2pix_vec', fpos, a, pa),
+                'sky2pix_ellipse': call('sky2pix_ellipse', fpos, a, b, pa),
+                'sky2pix_ellipse_int_pa': call('sky2pix_ellipse', fpos, a, b, float(pai))}
+        if not any(v is None for v in base.values()):
+            for name, pos in spell(int(ra0), int(dec0)):
+                for method, args, key in (('sky2pix', (), 'sky2pix'), ('sky2pix_vec', (a, pa), 'sky2pix_vec'),
+                                          ('sky2pix_ellipse', (a, b, pa), 'sky2pix_ellipse'),
+                                          ('sky2pix_ellipse', (a, b, pai), 'sky2pix_ellipse_int_pa')):
+                    got = call(method, pos, *args)
+                    if got is not None:
+                        o.count('int_sky_spellings_checked')
+                        compare(method, name, [ra0, dec0] + list(args), base[key], got)
 
 
 def fold(cases, results, tier):
